@@ -28,17 +28,21 @@ class Tape:
         self.us.append(u)
         return u
 
+    def _many(self, size):
+        """an array request consumes its uniforms one after the other (C order), like numpy's generator"""
+        shape = (size,) if isinstance(size, (int, np.integer)) else tuple(size)
+        out = np.empty(shape)
+        for idx in np.ndindex(shape):
+            out[idx] = self._u()
+        return out
+
     def rand(self, *shape):
-        if shape:
-            raise RuntimeError("tape feeder: np.random.rand with a shape is not modelled")
         self.calls.append("rand")
-        return self._u()
+        return self._many(shape) if shape else self._u()
 
     def random_sample(self, size=None):
-        if size is not None:
-            raise RuntimeError("tape feeder: np.random.random_sample with a size is not modelled")
         self.calls.append("random_sample")
-        return self._u()
+        return self._u() if size is None else self._many(size)
 
     def uniform(self, low=0.0, high=1.0, size=None):
         """numpy semantics: low + (high-low)*u, elementwise over broadcast low/high"""
